@@ -30,6 +30,8 @@ def extra(cases, verdicts):
                             "tour_len_hist": {str(k): sum(1 for c in cases if len(c["tour"]) == k) for k in range(0, 7)}}}
 
 
+CLAIMED = True
+
 PROP = dict(
     proof_modules=["VrpProofs.C06", "VrpProofs.C06Cap"], model_modules=["VrpModel.Route", "VrpModel.C06"],
     drv="drv_c06", bin="c06", compare=compare, nontrivial=nontrivial, extra_evidence=extra,
